@@ -425,7 +425,8 @@ public:
             {
                 if (applymask && !mask[src_y][src_x])
                     continue;
-                auto scaled_px = src_it[src_x];
+                // a value copy: with 'auto' a planar view yields a reference proxy and scaling wrote into the source image
+                typename SrcView::value_type scaled_px = src_it[src_x];
                 static_for_each(scaled_px, [&](channel_t& ch) {
                     // signed division: size_t arithmetic would turn negative channel values into huge keys
                     ch = static_cast<channel_t>(ch / static_cast<std::ptrdiff_t>(bin_width));
